@@ -338,7 +338,7 @@ func (e *Engine) callsTagged(u *Unit, id string) bool {
 				}
 				callee := cc.StaticCallee()
 				if callee == nil {
-					if nt, ok := cc.Value.Type().(*types.Named); ok && !cc.IsInvoke() {
+					if nt, ok := cc.Value.Type().(*types.Named); ok && !cc.IsInvoke() && nt.Obj().Pkg() != nil {
 						if c := e.specs.FTypes[nt.Obj().Pkg().Path()+"::"+nt.Obj().Name()]; c != nil && contractMentions(c, id) {
 							return true
 						}
